@@ -7,6 +7,7 @@ mod implt;
 mod lang;
 mod lift;
 mod lrref;
+mod obs;
 
 use fw::Tier;
 
